@@ -1,5 +1,5 @@
 """C03 - loading builds exactly the documented object, through every entry point (structural clauses)."""
-from ..rules import entry, fwd, readers, serial
+from ..rules import entry, fwd, readers, serial, state
 from ..rules.callgraph import callgraph
 
 EXPLANATION = (
@@ -55,6 +55,9 @@ def sweep(ctx):
 
 sweep.thorough_only = True
 
+def c8(ctx):
+    state.shared_state(ctx, ["simfile:open", "simfile:load", "simfile:loads", "simfile:open_with_detected_encoding", "simfile:opendir", "simfile:openpack", "simfile:mutate"], "what a loader builds depends on its arguments only")
+
 CLAUSES = [
     ("C03.1", "keys upper-cased in every reader (R-KEYNORM)", c1),
     ("C03.2-3", "first vs. all components; six trimmed fields or ValueError; SSC chart opening", c2),
@@ -63,4 +66,5 @@ CLAUSES = [
     ("C03.6", "format dispatch table", c6),
     ("C03.7", "one funnel to the tokenizer", c7),
     ("C03.sweep", "package-wide option forwarding (thorough)", sweep),
+    ("C03.8", "no process-wide state behind the loaders (module tables such as ENCODINGS are never changed at run time) (R-STATE)", c8),
 ]
